@@ -16,14 +16,16 @@ import (
 
 func init() {
 	register(&Prop{ID: "C16", Run: runC16, MinNontrivial: 500,
-		Rule:        "cases = (BuildAuthBodyPost, BuildAuthBodyPostFromDocument, BuildLogoutBodyPostFromDocument, BuildLogoutResponseBodyPostFromDocument) x relay states (quotes, angle brackets, ampersands, </form>, </script>, script fragments, attribute breakers, newlines, CR, non-ASCII, astral, long) x signed/unsigned/caller-made documents x URL-safe IdP endpoints with and without query; oracle tokenises the page with golang.org/x/net/html (an HTML5 tokenizer independent of html/template) and requires exactly the expected token sequence: one form (action == endpoint), hidden SAMLRequest|SAMLResponse == base64(doc.WriteToBytes()), RelayState input present iff non-empty and equal after entity decoding, the submit input, script elements with the fixed template text, nothing else; non-trivial = a page was produced; distinct by parameter tuple; relay states swept over every string literal of the library source; IdP endpoints re-configured between building the document and rendering",
+		Rule:        "cases = (BuildAuthBodyPost, BuildAuthBodyPostFromDocument, BuildLogoutBodyPostFromDocument, BuildLogoutResponseBodyPostFromDocument) x relay states (quotes, angle brackets, ampersands, </form>, </script>, script fragments, attribute breakers, newlines, CR, non-ASCII, astral, long) x signed/unsigned/caller-made documents x URL-safe IdP endpoints with and without query; oracle tokenises the page with golang.org/x/net/html (an HTML5 tokenizer independent of html/template) and requires exactly the expected token sequence: one form (action == endpoint), hidden SAMLRequest|SAMLResponse == base64(doc.WriteToBytes()), RelayState input present iff non-empty and equal after entity decoding, the submit input, script elements with the fixed template text, nothing else; non-trivial = a page was produced; distinct by parameter tuple; relay states swept over every string literal of the library source; IdP endpoints re-configured between building the document and rendering; relay states that are not valid UTF-8",
 		Assumptions: []string{"NUL and U+000D are excluded from relay states (not representable in an HTML form: HTML input-stream preprocessing turns CR/CRLF into LF, and form submission re-normalises newlines)", "IdP endpoints are URL-safe (html/template normalises exotic URLs in action=)"}})
 }
 
 var c16Relay = []string{"", "", "/app", `"quoted"`, `'single'`, `"><script>alert(1)</script>`, `' onmouseover='x`, `" onfocus="alert(1)" autofocus="`, `</form><form action="https://evil.test">`, `</script><script>evil()</script>`,
 	`<img src=x onerror=alert(1)>`, `a&b`, `&amp;`, `&lt;script&gt;`, `&#x22;`, `&quot`, "line1\nline2", "two\n\nlines\n", "tab\there", "Jürgen 日本語", "😀", "`backtick`", `\"escaped\"`, `{{.URL}}`, `{{template "x"}}`, `<!--`, `-->`, `]]>`, `<![CDATA[`, "  ", "\x7f\x1f\x01", "\u0085", "=", " ", "  lead", "%22%3E",
 	// white-space characters next to other control characters, character references next to markup
-	"v1\tuser=alice\x1fsession=42\treturn=/home", "page 1\n\x0cpage 2", "\t\x01", "a\nb\x7f\tc", "\x1e\n", "\u0080\t\u009f", "a&amp;b&#34;c&copy=1", "?id=3&region=eu&copy=1&lt=2", "&#x3c;b&#62;"}
+	"v1\tuser=alice\x1fsession=42\treturn=/home", "page 1\n\x0cpage 2", "\t\x01", "a\nb\x7f\tc", "\x1e\n", "\u0080\t\u009f", "a&amp;b&#34;c&copy=1", "?id=3&region=eu&copy=1&lt=2", "&#x3c;b&#62;",
+	// opaque tokens that are not UTF-8 (Latin-1 text, binary session handles, a value cut inside a multi-byte character)
+	"caf\xe9", "\xff\xfetoken", "M\xfcller & S\xf6hne", "abc\xc3", "\x80", "tok\xf0\x9f\x98", "\xed\xa0\x80", "\xc0\xaf\"x", "sess=\x9c\x8b\x01\xfa<"}
 
 type htok struct {
 	typ   html.TokenType
